@@ -28,7 +28,7 @@ def plan(pid, tier):
                 hx_leg("SD", profile="rel", props=["C03"], **sd)]
         return legs
     if pid == "C04":
-        return [hx_leg("SA", props=["C04"]), hx_leg("SD", props=["C04"]), hx_leg("SC", features=("wide",), props=["C04"])]
+        return [hx_leg("SA", props=["C04"], drop_world=True), hx_leg("SD", props=["C04"], drop_world=True), hx_leg("SC", features=("wide",), props=["C04"], drop_world=True)]
     if pid == "C06":
         return [hx_leg("SA", props=["C06"]), hx_leg("SB", props=["C06"])]
     if pid == "C07":
@@ -42,7 +42,7 @@ def plan(pid, tier):
     if pid == "C12":
         return [hx_leg("SA", props=["C12"]), hx_leg("SB", props=["C12"]), hx_leg("LIMIT", depth=2 if q else 4)]
     if pid == "C13":
-        return [hx_leg("SD", props=["C13", "C01", "C02", "C06", "C09", "C12"], **(dict(L=2, D=7) if q else dict(L=3, D=8)))]
+        return [hx_leg("SD", props=["C13", "C01", "C02", "C06", "C09", "C12"], drop_world=True, **(dict(L=2, D=7) if q else dict(L=3, D=8)))]
     if pid == "C17":
         return [hx_leg("SG", features=("events",), props=["C17"])]
     raise KeyError(pid)
